@@ -104,7 +104,7 @@ TConnect == /\ Ev("connect") /\ Common /\ RxSame
                Step(ev, IF ev.res # "ok" THEN "harness:connect-failed" ELSE "", CConnect(S, ev.c))
 
 TSend == /\ Ev("send") /\ Common /\ RxSame
-         /\ LET ev == Rec[l] IN Step(ev, "", CSend(S, ev.c, ev.bytes))
+         /\ LET ev == Rec[l] IN Step(ev, "", CSendFds(S, ev.c, ev.bytes, ev.fds))
 
 TRecv == /\ Ev("recv") /\ Common
          /\ rx' = [rx EXCEPT ![Rec[l].c] = IF Len(@) >= RxCap THEN @ ELSE @ \o Rec[l].bytes] /\ UNCHANGED supplied
@@ -173,8 +173,12 @@ TFlush == /\ Ev("flush") /\ Common /\ RxSame /\ Step(Rec[l], "", FlushAllFull(S,
 TFdCount ==
     /\ Ev("fdcount") /\ Common /\ RxSame
     /\ LET ev == Rec[l]
-           want == 2 + (IF S.hasKill THEN 1 ELSE 0) + Cardinality(Open(S))
-       IN Step(ev, IF ev.n # want THEN "fds:count" ELSE "", S)
+           \* listener, epoll, kill switch, one per connection entry, plus every descriptor received over
+           \* a socket that a connection or a request held by the application still owns
+           want == 2 + (IF S.hasKill THEN 1 ELSE 0) + Cardinality(Open(S)) + HeldByServer(S)
+       IN IF ~dead /\ ReadyBad(ev) = "" /\ ev.n # want
+          THEN Bad("fds:count", [got |-> ev.n, expected |-> want, connections |-> Cardinality(Open(S)), received_held |-> HeldByServer(S)]) /\ UNCHANGED S
+          ELSE Step(ev, "", S)
 
 -----------------------------------------------------------------------------
 \* epoll event bits -> class
@@ -248,9 +252,12 @@ TPoll ==
           LET acc == r.S.acc
               yl == ev.yielded
               sameYield == Len(acc) = Len(yl) /\ \A i \in 1..Len(acc) : acc[i].owner = yl[i].c /\ acc[i].tag = yl[i].tag
+              sameFiles == \A i \in 1..Len(acc) : acc[i].files = yl[i].files
               rm == Removed(r.S)
           IN IF ~sameYield THEN Bad(IF Len(yl) > Len(acc) THEN "yield:extra" ELSE "yield:differs",
                                     [expected |-> acc, got |-> yl]) /\ UNCHANGED S
+             ELSE IF ~sameFiles THEN Bad("files:yielded", [expected |-> [i \in 1..Len(acc) |-> acc[i].files],
+                                                           got |-> [i \in 1..Len(yl) |-> yl[i].files]]) /\ UNCHANGED S
              ELSE IF rm # removedLog THEN
                   Bad(IF \E f \in removedLog \ rm : r.S.srv[f].infl > 0 THEN "sweep:in-flight-connection-removed"
                       ELSE IF removedLog \ rm # {} THEN "sweep:live-connection-removed" ELSE "sweep:dead-connection-kept",
@@ -264,7 +271,8 @@ Spec == Init /\ [][Next]_vars
 \* the safety invariants of the server model hold in every state of every validated history
 \* (after a shutdown report the requests parsed in that call are lost with their in-flight counts:
 \*  the accounting invariant is not claimed beyond that point)
-SrvInv == dead \/ (CapOK(S) /\ TokenOK(S) /\ (S.res = "shutdown" \/ InflOK(S)) /\ InterestOK(S) /\ S.res # "err")
+SrvInv == dead \/ (CapOK(S) /\ TokenOK(S) /\ (S.res = "shutdown" \/ InflOK(S)) /\ InterestOK(S) /\ S.res # "err"
+                   /\ FilesOwnedOK(S) /\ FilesOnceOK(S))
 
 Accepted ==
     LET d == TLCGet("stats").diameter IN
